@@ -57,8 +57,9 @@ ASSUMPTIONS = [
     "FlowIRManifestException, ExperimentInvalidConfigurationError (manifest validation at load), PackageCreateError, "
     "InstanceCreateError, and - when expandPackageToDirectory is called directly - the ValueError it already uses for "
     "absolute keys",
-    "manifest keys named conf/input/stages/output (used by deployment itself) are outside the domain; link-method keys "
-    "whose parent folder does not exist yet are not required to work",
+    "for manifest keys named conf/input/stages/output (folders deployment itself writes into) only the no-write-outside "
+    "oracle applies (the resulting instance is not modelled); link-method keys whose parent folder does not exist yet "
+    "are not required to work",
     "references are staged in the order the code documents (non-component references in declaration order, then "
     "component references); collision scenarios are built so that the verdict does not depend on that order",
 ]
@@ -370,6 +371,11 @@ def deploy_model(entries, target, twin=False):
         if e["key"] in seen:            # a dict cannot hold the same key twice: generator keeps keys unique
             raise HarnessError("duplicate manifest key %r" % e["key"])
         seen.add(e["key"])
+        if e["key"].split("/")[0] in RESERVED_KEYS:
+            # folders that deployment itself writes into (conf receives the workflow definition): what the instance
+            # then contains is not modelled, only the no-write-outside oracle applies
+            v.odd.append("reserved-key")
+            continue
         src_abs = "{ROOT}/" + "/".join(DP_SRC + [e["src"]])
         M.apply_manifest_entry(fs, e, i, v, DEPLOY_SOURCES[e["src"]], src_abs)
         if v.escape == "via-copied-link":
@@ -427,7 +433,7 @@ def check_deploy(case, ctx: Ctx):
     verdict, fs = deploy_model(entries, DP_T)
     guard_budget([e["key"] for e in entries], [], len(DP_T) - 1)
     for e in entries:
-        if e["key"].split("/")[0] in ("conf", "input", "stages", "output"):
+        if e["key"].split("/")[0] in RESERVED_KEYS and "reserved-key" not in case.get("tags", []):
             raise HarnessError("reserved manifest key generated: %r" % e["key"])
 
     root = make_sandbox(ctx)
@@ -793,13 +799,14 @@ def manifest_hostile(tech, k, land, variant):
     raise ValueError(tech)
 
 
+RESERVED_KEYS = ("conf", "input", "stages", "output")
 AMBIG_KEYS = ["a/../b", "./b", "b/", "b//c", "../inst.instance/re", "b/."]
 MAN_TECHS = ["dotdot-key", "dotdot-key", "absolute-key", "below-link-key"]
 
 
 @st.composite
 def deploy_case(draw):
-    mode = draw(st.sampled_from(["hostile", "hostile", "hostile", "benign", "ambiguous"]))
+    mode = draw(st.sampled_from(["hostile", "hostile", "hostile", "benign", "ambiguous", "reserved"]))
     entry = draw(st.sampled_from(["expand", "instance", "instance"]))
     case = {"entry": entry}
     if entry == "instance":
@@ -820,6 +827,11 @@ def deploy_case(draw):
         tech = draw(st.sampled_from(MAN_TECHS))
         tags.append(tech)
         special = manifest_hostile(tech, draw(st.sampled_from([1, 2])), draw(st.integers(0, 4)), draw(st.integers(0, 11)))
+    elif mode == "reserved":
+        # a folder that deployment itself writes into, populated by the manifest - linked from outside in particular
+        tags.append("reserved-key")
+        special = [{"key": draw(st.sampled_from(["conf", "conf", "conf", "input", "output"])), "src": "s1",
+                    "method": draw(st.sampled_from(["link", "link", "copy", None])), "abs_src": draw(st.booleans())}]
     elif mode == "ambiguous":
         tags.append("ambiguous")
         special = [{"key": draw(st.sampled_from(AMBIG_KEYS)), "src": "s1", "method": draw(st.sampled_from([None, "link"]))}]
@@ -895,6 +907,14 @@ def catalogue():
                 {"kind": "extract", "src": "data/a0.tar", "members": [f("ok.txt")] + parts[0], "tags": ["cross-archive"]},
                 {"kind": "extract", "src": "data/a1.tar", "members": parts[1] + [f("ok2.txt")]}]}))
     for entry, via in (("expand", None), ("instance", "dict"), ("instance", "file")):
+        for key in ("conf", "input"):
+            for method in ("link", "copy"):
+                c = {"entry": entry, "tags": ["reserved-key"],
+                     "entries": [{"key": key, "src": "s1", "method": method, "abs_src": True},
+                                 {"key": "bin", "src": "s2", "method": "copy"}]}
+                if via:
+                    c["via"] = via
+                cases.append(("deploy", c))
         for tech in ("dotdot-key", "absolute-key", "below-link-key"):
             for k in (1, 2):
                 if tech != "dotdot-key" and k != 1:
